@@ -1078,6 +1078,16 @@ package argmapper
 //@   ensures [lifted-form-is-the-values-in-order-zero-when-unset] imp(vs != nil && vs.structType != nil && vs.isLifted, len(result) == len(vs.values) && forall(j, int, imp(0 <= j && j < len(vs.values), result[j] == ite(valid(vs.values[j].Value), vs.values[j].Value, zeroOf(vs.values[j].Type)))))
 //@   ensures [struct-form-is-one-value] imp(vs != nil && vs.structType != nil && !vs.isLifted, len(result) == 1)
 //@   loop 1 invariant vs != nil && vs.isLifted && vsSlots(vs) && fresh(result) && len(result) == len(vs.values) && forall(j, int, imp(0 <= j && j < len(vs.values), imp(!valid(vs.values[j].Value), vs.values[j].Type != nil))) && forall(j, int, imp(0 <= j && j < idx1, result[j] == ite(valid(vs.values[j].Value), vs.values[j].Value, zeroOf(vs.values[j].Type))))
+// FromSignature, struct form: every value of the set is read back from its own field of the struct handed in (C15)
+//@ func (*ValueSet).FromSignature
+//@   requires vs == nil || vs.structType == nil || (vsSlots(vs) && kindof(vs.structType) == 25 && imp(!vs.isLifted, len(values) >= 1 && valid(values[0]) && rtypeof(values[0]) == vs.structType) && imp(vs.isLifted, len(values) == len(vs.values) && forall(j, int, imp(0 <= j && j < len(values), valid(values[j]) && rtypeof(values[j]) == fieldType(vs.structType, j)))) && forall(j, int, imp(0 <= j && j < len(vs.values), 0 <= vs.values[j].index && vs.values[j].index < numField(vs.structType))))
+//@   ensures [never-fails] result == nil
+//@   ensures [struct-form-every-value-read-from-its-own-field] imp(vs != nil && vs.structType != nil && !vs.isLifted, forall(j, int, imp(0 <= j && j < len(vs.values), vs.values[j].Value == vfield(values[0], vs.values[j].index))))
+//@   ensures [entries-and-labels-kept] imp(vs != nil, len(vs.values) == old(len(vs.values)) && forall(j, int, imp(0 <= j && j < len(vs.values), vs.values[j] == old(vs.values[j]) && vs.values[j].Name == old(vs.values[j].Name) && vs.values[j].Type == old(vs.values[j].Type) && vs.values[j].Subtype == old(vs.values[j].Subtype) && vs.values[j].index == old(vs.values[j].index))))
+//@   loop 2 invariant vs != nil && vsSlots(vs) && kindof(vs.structType) == 25 && valid(structVal) && rtypeof(structVal) == vs.structType && forall(j, int, imp(0 <= j && j < len(vs.values), 0 <= vs.values[j].index && vs.values[j].index < numField(vs.structType)))
+//@   loop 2 invariant len(vs.values) == old(len(vs.values)) && forall(j, int, imp(0 <= j && j < len(vs.values), vs.values[j] == old(vs.values[j]) && vs.values[j].Name == old(vs.values[j].Name) && vs.values[j].Type == old(vs.values[j].Type) && vs.values[j].Subtype == old(vs.values[j].Subtype) && vs.values[j].index == old(vs.values[j].index)))
+//@   loop 2 invariant forall(j, int, imp(0 <= j && j < idx2, vs.values[j].Value == vfield(structVal, vs.values[j].index)))
+//@   loop 2 invariant imp(!vs.isLifted, structVal == old(values)[0])
 //@ func (*ValueSet).TypedSubtype
 //@   requires vs != nil && forall(j, int, imp(0 <= j && j < len(vs.values), vs.values[j] != nil))
 //@   ensures [exact-type-and-subtype] imp(result != nil, result.Type == t && result.Subtype == st && exists(j, int, 0 <= j && j < len(vs.values) && vs.values[j] == result))
